@@ -145,7 +145,7 @@ class Joiner:
         # Arr -> summary
         st = S.st
         n = len(v.elems)
-        ln = st.get(("const", n), (n, n))
+        ln = st.get(("const", n, "len"), (n, n))
         if ln not in S.iv:
             S.iv[ln] = D.point(n)
         el = None
